@@ -137,7 +137,9 @@ def run(chk):
         for n, (name, sc, bad) in enumerate(all_misses):
             sc2 = dict(sc)
             sc2["id"] = n + 1
-            ms.append((sc2, bad))
+            # one failing configuration is enough to recognise a candidate reduction (prefer one with rewrites on, so that
+            # the shrink programs are loaded once)
+            ms.append((sc2, sorted(bad, key=lambda x: ("rw=0" in x, x))[:1]))
         shr = C.shrink(os.path.join(work, "shrink"), ms, specs, timeout=(200 if tier == "quick" else 600))
         for (name, sc, bad), m in zip(all_misses, shr):
             key = m["key"] + C.cfg_suffix(bad, [s for s in specs])
